@@ -268,13 +268,18 @@ func c20Workload(seed int64, fonts *c20Fonts, reps int, sharedPDF bool) []c20Cal
 			p := genPath(r, pathOpts{Kinds: kAll, MaxSegs: 5, MaxSubs: 2, Closed: 2, MildCurve: true, CircArcs: true})
 			d := dataCopy(p)
 			w := r.Range(0.5, 4)
+			// tolerances other than the package default as well: an operation must not leave its argument
+			// behind in a package tunable
+			tol := core.PickF(r, []float64{0.01, 0.01, 0.05, 0.002, 0.5})
 			add("Path.Stroke", func() string {
-				return digestFloats(pathFrom(d).Stroke(w, canvas.RoundCap, canvas.RoundJoin, 0.01).Data())
+				return digestFloats(pathFrom(d).Stroke(w, canvas.RoundCap, canvas.RoundJoin, tol).Data())
 			})
-			add("Path.Flatten", func() string { return digestFloats(pathFrom(d).Flatten(0.01).Data()) })
+			add("Path.Flatten", func() string { return digestFloats(pathFrom(d).Flatten(tol).Data()) })
 			add("Path.Dash", func() string { return digestFloats(pathFrom(d).Dash(0.5, 2, 1, 0.5, 1).Data()) })
 			q := dataCopy(simpleClosedShape(r, 0, 0, r.Range(5, 20), r.Bool()))
-			add("Path.Offset", func() string { return digestFloats(pathFrom(q).Offset(w/2, 0.01).Data()) })
+			add("Path.Offset", func() string { return digestFloats(pathFrom(q).Offset(w/2, tol).Data()) })
+			circ := dataCopy(canvas.Circle(r.Range(3, 12)))
+			add("Path.Settle(curved)", func() string { return digestFloats(pathFrom(circ).Settle(canvas.NonZero).Data()) })
 		}
 		// text layout on the shared font
 		texts := []string{"The quick brown fox jumps over the lazy dog.", "Lorem ipsum dolor sit amet, consectetur adipiscing elit, sed do eiusmod tempor.", "AVATAR Wavy Toast fi fl ffi", "Zwölf Boxkämpfer jagen Viktor quer über den großen Sylter Deich"}
